@@ -304,10 +304,10 @@ class R:
         m_neg, q_poly = _split_laurent(self.num)
         if m_neg:
             return R({mono_pow(m_neg, q): F1}) * R(q_poly).pow(q)
-        cont, prim = _content(self.num)
+        cont, m_p, prim = _numeric_normalise(self.num)
         ipart = q.numerator // q.denominator
         frac = q - ipart
-        out = _num_pow(cont, q)
+        out = _num_pow(cont, q) * R({mono_pow(m_p, q): F1})
         pid = REG.reg(R(prim))
         out = out * R.atom(("poly", pid), frac)
         if ipart:
@@ -409,6 +409,23 @@ def _content(poly):
         den_l = den_l * c.denominator // math.gcd(den_l, c.denominator)
     cont = Fraction(num_g, den_l)
     return cont, {m: c / cont for m, c in poly.items()}
+
+
+def _numeric_normalise(poly):
+    """poly = c * m_p * poly'  with c > 0 rational, m_p a monomial of prime-power atoms, and the
+    canonical-first term of poly' having numeric part +/-1.  Makes `log` / fractional powers of
+    multi-term polynomials independent of how numeric factors such as 2^(1/2) were distributed."""
+    def split(m):
+        return (tuple((a, e) for a, e in m if a[0] != "prime"), tuple((a, e) for a, e in m if a[0] == "prime"))
+    lead = min(poly, key=lambda m: tuple((_akey(a), e) for a, e in split(m)[0]))
+    c = abs(poly[lead])
+    m_p = split(lead)[1]
+    inv = mono_pow(m_p, Fraction(-1))
+    newp = {}
+    for m, k in poly.items():
+        mm = mono_mul(m, inv)
+        newp[mm] = newp.get(mm, F0) + k / c
+    return c, m_p, R(newp).num
 
 
 def _num_pow(c, q):
@@ -521,9 +538,24 @@ def _log_poly(poly):
         for a, e in m_neg:
             out = out + _log_atom(a) * R.const(e)
         return out
-    cont, prim = _content(poly)
-    # canonical sign is kept inside the primitive part
-    return _log_num(cont) + R.atom(("log", REG.reg(R(prim))))
+    # common monomial factor of all terms (R3: every factor of a log argument is positive)
+    common = None
+    for m in poly:
+        d = dict(m)
+        common = d if common is None else {a: min(e, d[a]) for a, e in common.items() if a in d}
+    if common:
+        m_g = tuple(sorted(common.items(), key=lambda t: _akey(t[0])))
+        inv = mono_pow(m_g, Fraction(-1))
+        out = _log_poly({mono_mul(m, inv): c for m, c in poly.items()})
+        for a, e in m_g:
+            out = out + _log_atom(a) * R.const(e)
+        return out
+    cont, m_p, prim = _numeric_normalise(poly)
+    # canonical sign is kept inside the normalised part
+    out = _log_num(cont) + R.atom(("log", REG.reg(R(prim))))
+    for a, e in m_p:
+        out = out + R.atom(("logp", a[1])) * R.const(e)
+    return out
 
 
 def _log_num(c):
